@@ -92,7 +92,8 @@ PROPS = {
         dict(kind="macro", profile="C16", preds="", mask="none", quick=400, thorough=10000, panic_is_failure=True)]),
     "C15": dict(theorems=["Props/C15.v"], parts=[
         dict(kind="core", profile="C15", mask="out,stats", preds="c15", quick=Q, thorough=T),
-        dict(kind="macro", profile="C15", preds="stats", mask="ret,stats", quick=300, thorough=8000)]),
+        dict(kind="macro", profile="C15", preds="stats", mask="ret,stats", quick=300, thorough=8000),
+        dict(kind="sched", mode="stats", quick=60, thorough=600)]),
 }
 
 
@@ -256,7 +257,7 @@ def build_harness(run, crate):
 def split_cases(text):
     cases, cur = [], []
     for line in text.splitlines():
-        if line.startswith("CASE") or line.startswith("RTCASE") or line.startswith("PCASE"):
+        if line.startswith("CASE") or line.startswith("RTCASE") or line.startswith("PCASE") or line.startswith("STRESS"):
             cur = [line]
         elif line.startswith("END"):
             cur.append(line)
@@ -640,6 +641,12 @@ def check_sched_case(lines, table):
             deadlock = "deadlock=1" in l
             if deadlock:
                 problems.append("DEADLOCK " + l[6:])
+        elif t[0] == "BAD":
+            problems.append(l[4:])
+        elif t[0] == "STATS":
+            # statistics are exact under concurrency: hits + misses = lookups performed
+            if t[2] != "none" and int(t[2]) + int(t[3]) != int(t[4]):
+                problems.append("STATS f%s: hits %s + misses %s != %s lookups performed by concurrent callers" % (t[1], t[2], t[3], t[4]))
         elif t[0] in ("RA", "RB") and head[1].startswith("p-"):
             # overlapping lookups of a key that is stored and not removed: both must be served
             if "exec=1" in l:
@@ -693,7 +700,7 @@ def part_sched(run, part):
         return
     table = corpus_table()
     inputs = {c[0].split()[1]: c for c in split_cases(text.replace("CCASE", "CASE"))}
-    inputs = {k: [l.replace("PCASE", "CASE", 1) if i == 0 else l for i, l in enumerate(v)] for k, v in inputs.items()}
+    inputs = {k: [l.replace("PCASE", "CASE", 1).replace("STRESS", "CASE", 1) if i == 0 else l for i, l in enumerate(v)] for k, v in inputs.items()}
     outs, cur = {}, None
     for l in open(of):
         if l.startswith("CCASE"):
@@ -714,6 +721,8 @@ def part_sched(run, part):
             mine = [p for p in problems if p.startswith("DEADLOCK")]
         elif want == "sharing":
             mine = [p for p in problems if p.startswith("MISS")]
+        elif want == "stats":
+            mine = [p for p in problems if p.startswith("STATS")]
         else:
             mine = [p for p in problems if not p.startswith("DEADLOCK")]
         if dl:
